@@ -322,6 +322,11 @@ type SliceOpt struct {
 	NoMem bool
 	// CallDeps overrides the default "result depends on all operands" summary.
 	CallDeps func(c *ssa.Call) ([]ssa.Value, bool)
+	// NoDescend: do not look inside module callees (by default the returned
+	// values of a statically resolved module function are followed into its
+	// body, in addition to the operands of the call, so that a computation
+	// moved into a helper keeps its provenance).
+	NoDescend bool
 }
 
 type SliceRes struct {
@@ -330,11 +335,14 @@ type SliceRes struct {
 	Locs map[Loc]bool
 	// Writes followed
 	Writes map[*Write]bool
+	// Descended: calls of module functions whose bodies were followed.
+	Descended map[*ssa.Call]bool
+	stack     []*ssa.Call
 }
 
 func (p *Prog) Slice(v ssa.Value, opt SliceOpt) *SliceRes {
 	p.prov()
-	r := &SliceRes{p: p, Seen: map[ssa.Value]bool{}, Locs: map[Loc]bool{}, Writes: map[*Write]bool{}}
+	r := &SliceRes{p: p, Seen: map[ssa.Value]bool{}, Locs: map[Loc]bool{}, Writes: map[*Write]bool{}, Descended: map[*ssa.Call]bool{}}
 	r.visit(v, &opt, 0)
 	return r
 }
@@ -441,8 +449,12 @@ func (r *SliceRes) visit(v ssa.Value, opt *SliceOpt, depth int) {
 			r.visit(e, opt, depth+1)
 		}
 	case *ssa.Extract:
+		if c, ok := x.Tuple.(*ssa.Call); ok {
+			r.descend(c, x.Index, opt, depth)
+		}
 		r.visit(x.Tuple, opt, depth+1)
 	case *ssa.Call:
+		r.descend(x, -1, opt, depth)
 		if opt.CallDeps != nil {
 			if deps, ok := opt.CallDeps(x); ok {
 				for _, d := range deps {
@@ -520,6 +532,34 @@ func (r *SliceRes) visit(v ssa.Value, opt *SliceOpt, depth int) {
 			}
 		}
 	}
+}
+
+// descend follows the values returned by a statically resolved module callee
+// (result index idx, or all results when idx < 0).  Recursion and deep chains
+// fall back to the operand summary alone.
+func (r *SliceRes) descend(c *ssa.Call, idx int, opt *SliceOpt, depth int) {
+	if opt.NoDescend || len(r.stack) >= 6 {
+		return
+	}
+	sc := c.Common().StaticCallee()
+	if sc == nil || !r.p.inModule(sc) || len(sc.Blocks) == 0 {
+		return
+	}
+	for _, s := range r.stack {
+		if s.Common().StaticCallee() == sc {
+			return
+		}
+	}
+	r.Descended[c] = true
+	r.stack = append(r.stack, c)
+	for _, ret := range returnsOf(sc) {
+		for i, res := range ret.Results {
+			if idx < 0 || i == idx {
+				r.visit(res, opt, depth+1)
+			}
+		}
+	}
+	r.stack = r.stack[:len(r.stack)-1]
 }
 
 // visitAddr follows the values an address computation depends on (base
